@@ -37,7 +37,7 @@ RULE = ("case = <= 60 requests over 2 File objects and 3 temp paths (open via so
         "r+ w+ a+ and b variants, swrite 0..3*BUFSIZ bytes biased to 0,1,4095..4097,8191..8193,24576, sread, sseek "
         "(3 origins; targets inside the file biased to chunk boundaries, beyond the end up to 2^40 with reads (EOF) "
         "and writes (zero gap, file <= 64 KiB) there, and before the start, which fails), stell, seof, sflush, "
-        "print_to/scan_from records of Int/String(<= 100 chars)/Float, one scan_from over two adjacent records, "
+        "print_to/scan_from records of Int (%$, %li, and %hhd / %hd with signed char / short values)/String(<= 100 chars)/Float, one scan_from over two adjacent records, "
         "sclose, reopen, with blocks (nested <= 2), del (stack-class Files: sclose), every op on closed Files), "
         "made valid stdio by plan(); executed on the Cello File and a stdio twin. non-trivial = (>= 2 non-empty "
         "writes with a seek or (re)open between them and a read-back of >= 2 bytes strictly spanning a boundary "
